@@ -5,6 +5,7 @@ import (
 	"encoding/json"
 	"fmt"
 	"reflect"
+	"strconv"
 )
 
 // C07: purity and determinism.
@@ -44,7 +45,7 @@ func runPure(c Case) interface{} {
 	second := renderOne(ast, data, false, nil)
 	rep := outs[0] == outs[1] && outs[1] == outs[2]
 	return J{"class": outs[0].Class, "out": outs[0].Out, "msg": outs[0].Msg, "repeat_equal": rep,
-		"engine2_equal": second.Class == outs[0].Class && second.Out == outs[0].Out,
+		"engine2_equal":  second.Class == outs[0].Class && second.Out == outs[0].Out,
 		"data_unchanged": reflect.DeepEqual(before, deepCopy(data)) && reflect.DeepEqual(before, data)}
 }
 
@@ -88,7 +89,23 @@ func mutatingDoc(r *Rng) []interface{} {
 		func() { doc = append(doc, nRaw(sExpr(eCall(eDot(eDot(eId("o"), "list"), "push"), eStr("more"))))) },
 		func() { doc = append(doc, nRaw(sExpr(eCall(eDot(eDot(eId("o"), "list"), "sort"))))) },
 		func() { doc = append(doc, nRaw(sAssign(eId("s"), eStr("reassigned")))) },
-		func() { doc = append(doc, nRaw(sExpr(eCall(eDot(eIdx(eId("nested"), eNum("0")), "unshift"), eNum("0"))))) },
+		func() {
+			doc = append(doc, nRaw(sExpr(eCall(eDot(eIdx(eId("nested"), eNum("0")), "unshift"), eNum("0")))))
+		},
+		// a range() result is a fresh array on every call: mutating it must not be visible to any later call or render
+		func() {
+			doc = append(doc, nRaw(sVar("rg", eCall(eId("range"), eNum("1"), eNum(strconv.Itoa(r.Range(2, 5)))))),
+				nRaw(sExpr(eCall(eDot(eId("rg"), []string{"push", "unshift"}[r.Intn(2)]), eStr("next")))), nText("rg="),
+				nBuf(eCall(eDot(eId("rg"), "join"), eStr(",")), true), nText(";"))
+		},
+		func() {
+			doc = append(doc, nRaw(sVar("rh", eCall(eId("range"), eNum("3")))), nRaw(sExpr(eCall(eDot(eId("rh"), "pop")))), nText("rh="),
+				nBuf(eCall(eDot(eId("rh"), "join"), eStr(",")), true), nText(";"))
+		},
+		// iteration over an unordered data map whose keys mix numerals, padded numerals, signs and letters
+		func() {
+			doc = append(doc, nEach("kv", "kk", eId("km"), nBuf(eId("kk"), true), nText("="), nBuf(eId("kv"), true), nText(",")))
+		},
 	}
 	for i := 0; i < r.Range(1, 5); i++ {
 		ops[r.Intn(len(ops))]()
@@ -100,7 +117,8 @@ func mutatingDoc(r *Rng) []interface{} {
 
 func mutData(r *Rng) J {
 	return J{"xs": []interface{}{3, 1, 2, r.Range(0, 9)}, "o": J{"name": "n", "k": 1, "list": []interface{}{"b", "a"}, "zz": true, "aa": nil, "mm": 2.5},
-		"s": "str", "nested": []interface{}{[]interface{}{1, 2}, []interface{}{"x"}}}
+		"s": "str", "nested": []interface{}{[]interface{}{1, 2}, []interface{}{"x"}},
+		"km": J{"2": "a", "10": "b", "1a": "c", "01": "d", "1": "e", "+7": "f", "7": "g", "b": "h", "B": "i", "-1": "j", "1e1": "k"}}
 }
 
 func genC07(r *Rng, n int, tier string, emit func(Case)) {
